@@ -171,6 +171,14 @@ func run(r *report.Run, cc *sim.ChainCase) *report.Failure {
 						hit = true
 					}
 				}
+				if id == "EXIT-TOO-YOUNG" && hit {
+					ex := mb.Message.Body.VoluntaryExits
+					for _, e := range ex {
+						if v := info.Pre.Validators[e.Message.ValidatorIndex]; v.ActivationEligibilityEpoch < v.ActivationEpoch && strings.Contains(refErr.Error(), "too young") {
+							r.Hit("too-young-exit-of-queued-validator")
+						}
+					}
+				}
 				if hit && !mctx.Benign {
 					r.NonTrivial(fork + "|" + id)
 					r.Class("rejected-at-target:" + family(id))
@@ -293,6 +301,41 @@ func byteLevel(r *report.Run, l *sim.Lock, sb *refspec.SignedBlock, seed uint64,
 	return report.Failf("bytes/accepted-corrupted", "%s: a corrupted encoding (kind %d) decodes to a different block and the transition accepts it although its signature covers other content", fork, kind)
 }
 
+// tourQueuedActivations: a deposit burst, finality, activation of the newcomers; from then on every
+// block is hit with the age/epoch-dependent exit mutations.
+func tourQueuedActivations(rt *rapid.T) *sim.ChainCase {
+	far := refspec.FarFutureEpoch
+	fork := rapid.SampledFrom([][4]uint64{{far, far, far, far}, {1, far, far, far}, {1, 2, 2, 3}}).Draw(rt, "forks")
+	o := map[string]uint64{"SLOTS_PER_EPOCH": 4, "TARGET_COMMITTEE_SIZE": 2, "MAX_COMMITTEES_PER_SLOT": 2, "SHUFFLE_ROUND_COUNT": 3,
+		"SLOTS_PER_HISTORICAL_ROOT": 8, "EPOCHS_PER_HISTORICAL_VECTOR": 8, "EPOCHS_PER_SLASHINGS_VECTOR": 4, "EPOCHS_PER_ETH1_VOTING_PERIOD": 1,
+		"MAX_SEED_LOOKAHEAD": rapid.SampledFrom([]uint64{1, 2}).Draw(rt, "lookahead"), "MIN_PER_EPOCH_CHURN_LIMIT": 4, "CHURN_LIMIT_QUOTIENT": 4, "MAX_PER_EPOCH_ACTIVATION_CHURN_LIMIT": 8,
+		"SYNC_COMMITTEE_SIZE": 4, "EPOCHS_PER_SYNC_COMMITTEE_PERIOD": 2, "MAX_DEPOSITS": 16, "MAX_ATTESTATIONS": 128, "MAX_VOLUNTARY_EXITS": 4,
+		"SHARD_COMMITTEE_PERIOD": rapid.SampledFrom([]uint64{2, 3, 4}).Draw(rt, "scp")}
+	cc := &sim.ChainCase{Profile: "full", Config: sim.ConfigCase{Family: "custom", ForkEpochs: fork, Override: o}}
+	cc.Genesis = sim.GenesisCase{N: 16, GenesisTime: 77, Eth1Seed: rapid.Uint64().Draw(rt, "eth1_seed")}
+	for i := 0; i < 16; i++ {
+		cc.Genesis.AmountClass = append(cc.Genesis.AmountClass, 0)
+		cc.Genesis.Eth1Cred = append(cc.Genesis.Eth1Cred, true)
+	}
+	for s := 1; s <= 40; s++ {
+		p := &sim.BlockPlan{Seed: rapid.Uint64().Draw(rt, "seed"), AttMode: 1, Participation: 1000, SyncPm: 1000, Eth1Vote: 1}
+		if s == 1 {
+			for i := 0; i < 5; i++ {
+				p.Queue = append(p.Queue, sim.DepPlan{Kind: 0, Amount: 0, Eth1: true})
+			}
+		}
+		if s > 20 && s%3 == 0 {
+			p.NExits = 1
+		}
+		a := sim.Action{Kind: "block", Slots: 1, Plan: p, MutSeed: rapid.Uint64().Draw(rt, "mut_seed")}
+		if s >= 16 {
+			a.Mut = []string{"EXIT-TOO-YOUNG", "EXIT-FUTURE-EPOCH", "EXIT-ALREADY-OR-INACTIVE", "EXIT-WRONGKEY", "BYTES"}
+		}
+		cc.Actions = append(cc.Actions, a)
+	}
+	return cc
+}
+
 func TestCheck(t *testing.T) {
 	r := report.Begin("C03")
 	defer r.Finish()
@@ -309,7 +352,18 @@ func TestCheck(t *testing.T) {
 	if r.Replay != "" {
 		return
 	}
-	r.Mandatory("family:HDR", "family:SIG", "family:RANDAO", "family:ATT", "family:ASL", "family:PSL", "family:DEP", "family:EXIT", "family:BLSCH", "family:SYNC", "family:PAY", "bytes:decodable-corruption", "benign-mutation-accepted")
+	r.Mandatory("too-young-exit-of-queued-validator", "family:HDR", "family:SIG", "family:RANDAO", "family:ATT", "family:ASL", "family:PSL", "family:DEP", "family:EXIT", "family:BLSCH", "family:SYNC", "family:PAY", "bytes:decodable-corruption", "benign-mutation-accepted")
+	// ---- tour: validators that went through the activation queue, then mutations that depend on their age
+	nt := 2
+	if r.Thorough() {
+		nt = 16
+	}
+	if !r.Search(t, "tour-queued-activations", 100, nt, func(rt *rapid.T) (any, *report.Failure) {
+		cc := tourQueuedActivations(rt)
+		return cc, run(r, cc)
+	}) {
+		return
+	}
 	opts := sim.GenOpts{CustomPct: 85, AllowMainnet: false, MaxSlots: 36, BlockPct: 80, MaxSkip: 1, OpsBias: 85, MaxN: 48}
 	var ids []string
 	for _, m := range sim.Catalogue {
